@@ -72,3 +72,13 @@ class UniqueBlock(nnx.Module):
 @onnx_function
 def scaled(x, *, k=2.0):
     return x * k
+
+
+@onnx_function
+def poly_cfg(x, *, cfg):
+    return x * cfg[0][0] + cfg[0][1] + cfg[1][0]
+
+
+@onnx_function
+def ident_fn(x):
+    return x
